@@ -6,13 +6,13 @@ from props.C03 import edge_points
 
 ID = "C19"
 LEVEL = "proof"
-MODULES = ["H3Proofs.Props.C19"]
+MODULES = ["H3Proofs.Props.C19", "H3Proofs.Props.C19Shape"]
 THEOREMS = "auto"
 ASSUMPTIONS = ["all-integer model (h3ToFaceIjk, substrate vertices, overage adjustment, output set) tied by exact "
                "correspondence; the geometric reading (faces the interior intersects) is evaluated with an oracle "
                "that assigns interior sample points of cellToBoundary to the nearest face centre"]
-NOT_PROVED = ["faces = faces intersected by the interior (geometric reading; convexity argument not formalised)"]
-EXPLANATION = ("slot count / table theorems; exact correspondence of getIcosahedronFaces and its integer helpers; "
+NOT_PROVED = ["faces = faces intersected by the interior (geometric reading; convexity argument not formalised)", "a pentagon always reports five faces / a hexagon one or two: exercised on all 192 pentagons and the edge cells by correspondence + evaluator, not a theorem"]
+EXPLANATION = ("output-shape theorem (on success: exactly maxFaceCount slots, pairwise distinct faces 0..19, then -1 padding; every input) / table theorems; exact correspondence of getIcosahedronFaces and its integer helpers; "
                "evaluator: reported set = nearest-face set of interior sample points, on complete coarse resolutions, "
                "all pentagons, and cells along all 30 icosahedron edges at every resolution")
 
